@@ -363,6 +363,46 @@ def handle (j : Json) : Except String Json := do
         Json.mkObj [("id", jStr (sn sid)),
                     ("formula", match f with | some x => jStr x.render | none => Json.null),
                     ("betas", jStrs ((match f with | some x => betasOf x | none => []).eraseDups))]))])
+  | "multi" =>
+    -- several formulas on the same catalogs: after every operation, the configuration every formula shows
+    let es ← (← getArr j "formulas").toList.mapM exprOf
+    let sps : List (Except Err Space) := es.map central
+    match sps.find? (fun r => match r with | .error _ => true | .ok _ => false) with
+    | some (.error er) => pure (errJ er)
+    | _ =>
+      let fs : List Space := sps.filterMap fun r => match r with | .ok sp => some sp | .error _ => none
+      let cfgOf (s : String) : Except String Config :=
+        match fromString (nm s) with
+        | .ok c => pure c
+        | .error _ => throw "bad-op"
+      let ctrlOf (o : Json) : Except String Controller := do
+        pure ⟨nm (← getStr o "name"), (← strList (← o.getObjVal? "specs")).map nm⟩
+      let ops ← (← getArr j "ops").toList.mapM fun o => do
+        match (← getStr o "e") with
+        | "select" => pure (MOp.select (← getNat o "f") (← cfgOf (← getStr o "id")))
+        | "setctrl" => pure (MOp.setCtrl (← getNat o "f") (nm (← getStr o "name")) (← getInt o "index"))
+        | "apply" =>
+          let f ← getNat o "f"
+          match fs[f]? with
+          | none => throw "bad-op"
+          | some sp =>
+            match lookupOp (prepareOperators sp) (nm (← getStr o "key")) with
+            | some op => pure (MOp.apply f op (← cfgOf (← getStr o "id")) (← getInt o "step") (← natList (← o.getObjVal? "choices")))
+            | none => throw "bad-op"
+        | "index" => pure (MOp.directIndex (← ctrlOf o) (← getInt o "index"))
+        | "name" => pure (MOp.directName (← ctrlOf o) (nm (← getStr o "v")))
+        | "modify" => pure (MOp.directModify (← ctrlOf o) (← getInt o "step") (← getBool o "circular"))
+        | _ => throw "bad-op"
+      let views (st : St) : Json := jArr (fs.map fun sp => match getConfiguration sp st with
+        | .error er => errJ er
+        | .ok c => jStr (sn (stringId c)))
+      let rec goM (st : St) : List MOp → List Json
+        | [] => []
+        | o :: t =>
+          match stepM fs st o with
+          | .error er => [errJ er]
+          | .ok st' => views st' :: goM st' t
+      pure (Json.mkObj [("trace", jArr (goM St.init ops)), ("initial", views St.init)])
   | _ => throw "bad-op"
 
 def main : IO Unit := Drv.run handle
